@@ -1,5 +1,6 @@
 import Irismod.Props.Tie_Oracle
 open Irismod.Props.Tie Irismod.Gen.PureOracle
+#print axioms oracle_effects_pinned
 #print axioms oracle_guards_pinned
 #print axioms oracle_all_translated
 #print axioms oracle_translated_pinned
